@@ -79,6 +79,19 @@ def run(chk):
                     env2 = dict(env, key=(pipegen.KEY if rng.chance(1, 2) else None))
                     runner.run_case({"env": env2, "caller": caller, "dest": e2e.WS, "label": "ws", "req": req, "plan": None,
                                      "timeout": 20.0})
+        # chunked bodies whose chunk sizes divide the limit (the frames add up to exactly the limit before the byte that is too many)
+        for (method, target) in NON_EXEMPT[:2]:
+            for size, chunking in ((LOW + 1, [1024] * 101), (LOW + 1, [4096] * 26), (LOW + 5000, [1024] * 105), (2 * LOW, [4096] * 50),
+                                   (LOW + 1, [LOW, 1]), (LOW, [1024] * 100), (LOW, [4096] * 25), (LOW + 1, [51200, 51200, 1])):
+                body = big_body(size, rng)
+                runner.run_case({"env": env, "caller": caller, "dest": e2e.WS, "label": "ws", "plan": None, "timeout": 20.0,
+                                 "req": {"method": method, "target": target, "headers": [(b"Host", b"h")], "body": body, "chunked": chunking}})
+                chk.count("chunk_sizes_dividing_the_limit")
+        # a client that takes longer than any ten-second budget to send a small legal upload (1 KiB per second): relayed whole
+        slow_body = big_body(12 * 1024, rng)
+        runner.run_case({"env": env, "caller": caller, "dest": e2e.WS, "label": "ws", "plan": None, "timeout": 40.0, "send_rate": 1024,
+                         "req": {"method": "PUT", "target": "/vmAgentLog", "headers": [(b"Host", b"h")], "body": slow_body, "chunked": None}})
+        chk.count("slow_client_upload")
         # several requests on ONE kept-alive connection whose limit classes differ, and requests that follow a refused one: the limit
         # is the limit of the request at hand, and nothing of a refused body reaches the host with a later request
         def rq(method, target, size, chunked=None):
